@@ -137,9 +137,18 @@ class Harness(cm.BaseA):
         return res
 
     def rec_diff(self, a, b, geos):
-        if a == b:
-            return None
         fa, fb = a.split(";"), b.split(";")
+        if a == b:
+            # equal strings are only fine if the addressed rack is not a trough, or the number means the same
+            # well on both devices
+            if fa[0] in ("A", "D") and len(fa) == 11 and geos.get(fa[1]) is not None and geos[fa[1]].is_trough:
+                try:
+                    ca, cb = geos[fa[1]].decode("evo", int(fa[4])), geos[fa[1]].decode("fluent", int(fb[4]))
+                except ValueError:
+                    return None
+                if ca is None or ca != cb:
+                    return f"both devices emitted {a!r}; on the EVO it addresses {ca}, on the Fluent {cb}"
+            return None
         if fa[0] != fb[0] or fa[0] not in ("A", "D", "R"):
             return f"records differ: {a!r} vs {b!r}"
         if fa[0] in ("A", "D"):
